@@ -191,7 +191,10 @@ def _handler_cannot_mask(ctx, f, h: ast.ExceptHandler, label: str) -> None:
     a format specification (`{v:>12}`), a subscript (`names[key]`), arithmetic or an unknown call on
     run-time values is not."""
     bad = []
+    annotations = {id(x) for st_ in ast.walk(ast.Module(body=h.body, type_ignores=[])) if isinstance(st_, ast.AnnAssign) for x in ast.walk(st_.annotation)}
     for n in ast.walk(ast.Module(body=h.body, type_ignores=[])):
+        if id(n) in annotations:
+            continue  # type annotations of locals are not evaluated for their value
         if isinstance(n, ast.FormattedValue) and n.format_spec is not None:
             bad.append((n, f"format specification in `{norm(n)[:50]}` (TypeError for lists, arrays, None)"))
         elif isinstance(n, ast.Subscript) and isinstance(n.ctx, ast.Load):
@@ -201,7 +204,21 @@ def _handler_cannot_mask(ctx, f, h: ast.ExceptHandler, label: str) -> None:
         elif isinstance(n, ast.Call):
             fn = norm(n.func)
             last = fn.split(".")[-1]
-            total = last in ("add_note", "items", "keys", "values", "exception", "error", "warning", "info", "debug", "repr", "str", "type", "format_exc") or fn in ("repr", "str", "type", "len")
+            total = last in ("add_note", "items", "keys", "values", "exception", "error", "warning", "info", "debug", "repr", "str", "type", "format_exc", "chain", "from_iterable") or fn in ("repr", "str", "type", "len", "iter")
+            if last == "format" and isinstance(n.func, ast.Attribute) and not n.args and all(k.arg for k in n.keywords):
+                # "<template>".format(name=value, ...): total when every field of the (constant) template is a
+                # supplied keyword without format specification
+                tpl = expand(f, n.func.value)
+                if isinstance(tpl, ast.Name):
+                    tpl = f.module.globals_.get(tpl.id, tpl)
+                if isinstance(tpl, ast.Constant) and isinstance(tpl.value, str):
+                    import string
+
+                    try:
+                        fields = [(fld, spec) for _, fld, spec, _ in string.Formatter().parse(tpl.value) if fld is not None]
+                    except ValueError:
+                        fields = None
+                    total = fields is not None and all(fld.split(".")[0].split("[")[0] in {k.arg for k in n.keywords} and not spec and "[" not in fld for fld, spec in fields)
             if not total:
                 bad.append((n, f"call `{norm(n)[:50]}`"))
     ctx.check(not bad, f.qual + f"#handler-total:{label}", "the handler only formats with !r / !s and adds notes: it cannot replace the original error" if not bad else f"the handler can raise before it re-raises - {bad[0][1]}: the model's exception (type, message, notes) would be replaced", where=f, node=bad[0][0] if bad else h)
